@@ -62,13 +62,24 @@ theorem snapshot_keeps_policy_order (lim : Limits) (ops : List AuthOp) (snap : S
 theorem save_refused_when_dirty (s : AuthState) (h : s.dirty = true) : save s = none := by
   exact snap_save_dirty s h
 
-theorem authorize_sets_dirty (cfg : EvalCfg) (tok : Token) (s : AuthState) (w : World) (ap : AuthorityPhase)
-    (h : authorityPhase cfg tok.authority s = (w, .ok ap)) : (authorize cfg tok s).1.dirty = true := by
-  exact snap_authorize_dirty cfg tok s w ap h
+/-- Every `Authorize` counts as an evaluation — also one that stopped at a limit, on an
+expression error or on an invalid rule (the world holds the token's facts by then). -/
+theorem authorize_sets_dirty (cfg : EvalCfg) (tok : Token) (s : AuthState) :
+    (authorize cfg tok s).1.dirty = true := by
+  exact snap_authorize_dirty cfg tok s
 
-theorem query_sets_dirty (cfg : EvalCfg) (s : AuthState) (q : DRule) (fs : List DFact)
-    (h : (query cfg s q).2 = .ok fs) : (query cfg s q).1.dirty = true := by
-  exact snap_query_dirty cfg s q fs h
+theorem query_sets_dirty (cfg : EvalCfg) (s : AuthState) (q : DRule) :
+    (query cfg s q).1.dirty = true := by
+  exact snap_query_dirty cfg s q
+
+/-- Hence: after `Authorize` or `Query`, with any outcome, saving is refused. -/
+theorem save_refused_after_authorize (cfg : EvalCfg) (tok : Token) (s : AuthState) :
+    save (authorize cfg tok s).1 = none :=
+  save_refused_when_dirty _ (authorize_sets_dirty cfg tok s)
+
+theorem save_refused_after_query (cfg : EvalCfg) (s : AuthState) (q : DRule) :
+    save (query cfg s q).1 = none :=
+  save_refused_when_dirty _ (query_sets_dirty cfg s q)
 
 /-! ### Wire level -/
 
